@@ -1,6 +1,6 @@
 (* Props/C01.v — C01 property theorems only. *)
 From Coq Require Import List ZArith Bool.
-From Verif Require Import Model.C01_BlobRead Proofs.C01.
+From Verif Require Import Model.C01_BlobRead Model.C01_Resume Proofs.C01 Proofs.C01r.
 Import ListNotations.
 Open Scope Z_scope.
 
@@ -48,3 +48,28 @@ Theorem C01_limit_read_bound :
   Z.of_nat (length bs) <= lim + 1 /\ (Z.of_nat (length bs) > lim -> oe = None) /\ lim' = lim - Z.of_nat (length bs).
 Proof. intros. eapply limit_read_bound; eassumption. Qed.
 Print Assumptions C01_limit_read_bound.
+
+(* ---- the resume layer under a registry read (reghttp Resp.Read / Resp.next, one host): completeness, so that the
+   soundness theorems above are not vacuous.  A registry that serves the right bytes from the requested offset (whole
+   length announced on an unranged request, Content-Range on a ranged one) but cuts any of the first k bodies short,
+   at ANY offset, as EOF or unexpected EOF, with k + (the host's backoff count) below the retry limit: for every blob,
+   every expectation (descriptor size or none) and every caller with non-empty buffers that keeps reading, the caller
+   receives exactly the blob, then EOF. *)
+Theorem C01_resume_complete : forall (byte : Type) (c : list byte) srv limit eager k b0 expect bufs,
+  honest byte c srv k -> (b0 + k < limit)%nat -> (expect = Z.of_nat (length c) \/ expect = 0) ->
+  Forall (fun n => (0 < n)%nat) bufs -> (length c + k < length bufs)%nat ->
+  exists s s' l, open srv limit expect b0 = (NOk, s, [None]) /\ drain srv limit eager s bufs = (c, Some UEOF, s', l).
+Proof. exact resume_complete. Qed.
+Print Assumptions C01_resume_complete.
+
+(* ... and whatever the caller does (any buffer sizes, stopping anywhere), what it has been handed is a prefix of the
+   blob and the read has not failed: the stitching of resumed bodies is exact *)
+Theorem C01_resume_stitching_exact : forall (byte : Type) (c : list byte) srv limit eager k b0 expect bufs,
+  honest byte c srv k -> (b0 + k < limit)%nat -> (expect = Z.of_nat (length c) \/ expect = 0) ->
+  exists s out r s' l, open srv limit expect b0 = (NOk, s, [None]) /\ drain srv limit eager s bufs = (out, r, s', l) /\
+    ((r = None /\ exists tl, c = out ++ tl) \/ (r = Some UEOF /\ out = c)).
+Proof. exact resume_safe. Qed.
+Print Assumptions C01_resume_stitching_exact.
+
+Example C01_resume_nonvacuous : honest nat demo_blob demo_srv 2 /\ (0 + 2 < 4)%nat.
+Proof. split; [exact demo_honest|repeat constructor]. Qed.
